@@ -8,7 +8,7 @@ KINDS = ["func", "method", "classmethod", "staticmethod", "property", "inherited
 # resolvability class of each kind (DESIGN 3.4)
 MAY = {"lambda", "setprop", "nested_static"}
 FLAVOUR_OK = {"func", "method", "classmethod", "staticmethod", "inherited", "wrapped", "innerclass", "override"}
-EXITS = ["const", "constnone", "expr", "param", "implicit", "raise", "cond"]
+EXITS = ["const", "constnone", "expr", "param", "implicit", "raise", "cond", "condnone"]
 PK = ["posonly", "poskw", "kwonly"]
 
 
@@ -47,7 +47,7 @@ def function(draw, idx):
     f["exit"] = draw(st.sampled_from(EXITS))
     # parameters / locals captured by a nested lambda become cell variables (a longer frame prologue before the first RESUME)
     f["capture"] = draw(st.sampled_from([0, 0, 1, 3]))
-    f["yields"] = draw(st.lists(st.sampled_from(["@p", "1", "'y'", "None", "[1.5]", "{'a': 1}", "@cond", "@cond", "@from", "@from"]), max_size=4)) if f["flavour"] == "gen" else []
+    f["yields"] = draw(st.lists(st.sampled_from(["@p", "1", "'y'", "None", "[1.5]", "{'a': 1}", "@cond", "@cond", "@from", "@from", "@loop", "@loop"]), max_size=4)) if f["flavour"] == "gen" else []
     f["awaits"] = draw(st.integers(0, 3)) if f["flavour"] == "coro" else 0
     return f
 
@@ -236,6 +236,11 @@ def render(prog):
             for y in f["yields"]:
                 # "@cond": the yielded type depends on the argument's value, not on its type
                 yv = (first or "0") if y == "@p" else (f"(1 if {first} else 's')" if first else "1.5") if y == "@cond" else y
+                if y == "@loop":
+                    # a bare yield inside try/except: an exception thrown in is handled and the generator suspends again at the
+                    # very same yield (the consumer pattern `while True: try: yield / except Reset: continue`)
+                    B += [f"{ind}while True:", f"{ind}    try:", f"{ind}        yield", f"{ind}    except S.Thrown:", f"{ind}        continue", f"{ind}    break"]
+                    continue
                 if y == "@from":
                     # delegation: the values relayed by `yield from` are yielded by this generator
                     B.append(f"{ind}_n = yield from S.relay((b'relayed', 2.5, {first or 0}))")
@@ -272,6 +277,10 @@ def render(prog):
             B.append(f"{ind}return {ret_first}" if ret_first else f"{ind}return (1, 2)")
         elif e == "cond":
             B.append(f"{ind}return (1 if {ret_first} else 's')" if ret_first else f"{ind}return 1.5")
+        elif e == "condnone":
+            # returns a value in some calls and None in others (for a generator: `return <value>` vs falling off the end)
+            B.append(f"{ind}if {ret_first}:" if ret_first else f"{ind}if S.R.fuel_left:")
+            B.append(f"{ind}    return 'value'")
         elif e == "raise":
             B.append(f"{ind}raise S.BadExit('x')")
         elif e == "implicit":
@@ -318,7 +327,7 @@ def render(prog):
             top.append(f"        S.R.exc(_c, _e)")
             top.append(f"        raise")
             top.append(f"    S.R.post(_c, _r)")
-            top.append(f"    S.R.kept.append(inner)")
+            top.append(f"    S.R.keep(inner)")
             top += body(f, "    ")
         else:
             dec = {"classmethod": "@classmethod", "staticmethod": "@staticmethod", "property": "@property", "setprop": "@property",
